@@ -190,6 +190,8 @@ func C11(c *core.Ctx) {
 	// branches given by reference into ANOTHER file: the merged struct is built by the referring file's generator from the other
 	// document's nodes, whose fragment-only references still mean their own document
 	ruleMultiSel(c, ruleSet("A-GENERR", "A-REQ", "A-REJ", "A-NOEXTRA", "A-MAP", "A-TYP"), 2, "an allOf branch in another file", "allOf branch in two files", "recursive through #")
+	// the alias of a referenced anyOf branch is built anew on every visit: Package.AddDecl keeps one (A-DECLSET)
+	ruleDeclSet(c)
 	c.Floor("families", c.Counts["members"], 24, "family members")
 	a := engb.New(c.Prog)
 	emit(c, a.RefCacheScope())
